@@ -24,32 +24,6 @@ import (
 	"verif/harness/internal/vk"
 )
 
-type classAlloc struct{ plain, ctx map[int]int }
-
-func (c *classAlloc) next(t int, ctx bool) (int, bool) {
-	if ctx {
-		n := c.ctx[t]
-		if n >= evt.NumCtx {
-			return 0, false
-		}
-		c.ctx[t] = n + 1
-		return n, true
-	}
-	n := c.plain[t]
-	if n >= evt.NumPlain {
-		return 0, false
-	}
-	c.plain[t] = n + 1
-	return n, true
-}
-
-type op struct {
-	K   string    `json:"k"`
-	T   int       `json:"t"`
-	Reg *conc.Reg `json:"reg,omitempty"`
-	Ctx bool      `json:"ctx,omitempty"`
-}
-
 func quiesce(w *conc.World, nTypes int) *conc.Quiescent {
 	w.Bus.Wait()
 	q := &conc.Quiescent{Counts: map[int]int{}, Probe: map[int]uint64{}}
@@ -81,92 +55,8 @@ func TestC02Stress(t *testing.T) {
 	for i := 0; i < n; i++ {
 		rng := run.Rand(uint64(i))
 		runtime.GOMAXPROCS(procs[i%len(procs)])
-		nT := 2 + rng.IntN(2)
-		drivers := conc.SameShardTypes(all, nT, rng.Uint64())
-		w := conc.NewWorld(drivers, rng.Uint64(), true)
-		w.NoisePct = 20 + rng.IntN(50)
-		alloc := &classAlloc{plain: map[int]int{}, ctx: map[int]int{}}
-		mkReg := func(t int) *conc.Reg {
-			ctxAware := rng.IntN(3) == 0
-			c, ok := alloc.next(t, ctxAware)
-			if !ok {
-				return nil
-			}
-			return &conc.Reg{T: t, Class: c, Ctx: ctxAware, Once: rng.IntN(5) == 0, Async: rng.IntN(5) == 0, Filter: rng.IntN(4) == 0}
-		}
-		G := 2 + rng.IntN(3)
-		owned := make([][]*conc.Reg, G)
-		// setup: pre-registered registrations, owned round-robin
-		pre := rng.IntN(5)
-		for k := 0; k < pre; k++ {
-			if r := mkReg(rng.IntN(nT)); r != nil {
-				w.Subscribe(90, r)
-				owned[k%G] = append(owned[k%G], r)
-			}
-		}
-		plans := make([][]op, G)
-		for g := 0; g < G; g++ {
-			m := 3 + rng.IntN(6)
-			mine := append([]*conc.Reg{}, owned[g]...)
-			for k := 0; k < m; k++ {
-				x := rng.IntN(100)
-				tt := rng.IntN(nT)
-				switch {
-				case x < 28:
-					if r := mkReg(tt); r != nil {
-						plans[g] = append(plans[g], op{K: "sub", T: tt, Reg: r})
-						mine = append(mine, r)
-					}
-				case x < 45:
-					if len(mine) > 0 {
-						j := rng.IntN(len(mine))
-						plans[g] = append(plans[g], op{K: "unsub", T: mine[j].T, Reg: mine[j]})
-						mine = append(mine[:j], mine[j+1:]...)
-					}
-				case x < 50:
-					plans[g] = append(plans[g], op{K: "clear", T: tt})
-				case x < 52:
-					plans[g] = append(plans[g], op{K: "clearall"})
-				case x < 90:
-					plans[g] = append(plans[g], op{K: "pub", T: tt, Ctx: rng.IntN(2) == 0})
-				default:
-					plans[g] = append(plans[g], op{K: "count", T: tt})
-				}
-			}
-		}
-		var wg sync.WaitGroup
-		start := make(chan struct{})
-		for g := 0; g < G; g++ {
-			wg.Add(1)
-			go func(g int) {
-				defer wg.Done()
-				<-start
-				for _, o := range plans[g] {
-					w.Noise()
-					switch o.K {
-					case "sub":
-						w.Subscribe(g, o.Reg)
-					case "unsub":
-						w.Unsubscribe(g, o.Reg)
-					case "clear":
-						w.Clear(g, o.T)
-					case "clearall":
-						w.ClearAll(g)
-					case "pub":
-						if o.Ctx {
-							id := w.NextEID()
-							w.PublishID(g, o.T, &conc.NoisyCtx{Context: context.Background(), W: w, EID: id}, id)
-						} else {
-							w.Publish(g, o.T, nil)
-						}
-					case "count":
-						w.Count(g, o.T)
-					}
-				}
-			}(g)
-		}
-		close(start)
-		wg.Wait()
+		w, plans, nT := conc.StressHistory(rng, all, true)
+		G := len(plans)
 		q := quiesce(w, nT)
 		h := conc.Index(w.Log)
 		fs := conc.CheckIntervals(w, h, q, nil)
